@@ -84,6 +84,24 @@ Proof.
 Qed.
 
 
+(* ... and without timers: the event set is left alone *)
+Lemma activate_timers_nil now i w : timers (w_mod w i) = [] -> timers (w_mod (activate now i w) i) = [].
+Proof. intros H. unfold activate. rewrite H. cbn [split_due w_mod set_cur set_mod]. rewrite N.eqb_refl. reflexivity. Qed.
+
+Lemma around_inactive_idle sc0 now i f w : active (w_mod w i) = false -> shut (w_mod w i) = None -> w_buf w = [] ->
+  (forall s, active (w_mod (x_w s) i) = false -> f s = s) -> timers (w_mod w i) = [] ->
+  w_fes (fst (around sc0 now i f w)) = w_fes w /\ timers (w_mod (fst (around sc0 now i f w)) i) = [].
+Proof.
+  intros Ha Hs Hb Hf Ht. destruct (around_inactive sc0 now i f w Ha Hs Hb Hf) as (_ & A2 & _).
+  pose proof (activate_timers_nil now i w Ht) as Hta.
+  split; [rewrite A2; unfold wake_of; rewrite Hta; reflexivity|].
+  assert (E : f {| x_w := activate now i w; x_log := [] |} = {| x_w := activate now i w; x_log := [] |})
+    by (apply Hf; cbn [x_w]; rewrite activate_active; exact Ha).
+  assert (Hsd : shut (w_mod (deactivate i (activate now i w)) i) = None)
+    by (rewrite deactivate_mod_eq; cbn [shut set_nw]; rewrite activate_shut; exact Hs).
+  rewrite around_fst, E. cbn [x_w]. rewrite buf_process_mod, Hsd, deactivate_mod_eq. cbn [timers set_nw]. exact Hta.
+Qed.
+
 (* tear-down records and the rest of the trace *)
 Lemma gen_no_end sc0 : forall w tr, Gen sc0 w tr -> filter (fun e => negb (is_end e)) tr = tr.
 Proof.
@@ -191,3 +209,15 @@ Proof.
     destruct (pending m tr); [injection HR as _ HR; exact HR|discriminate].
 Qed.
 
+(* an inert event on a dead module without timers adds nothing to the event set *)
+Lemma inert_step_idle m sc0 w t ev f1 :
+  active (w_mod w m) = false -> shut (w_mod w m) = None -> w_buf w = [] -> timers (w_mod w m) = [] ->
+  inert m ev = true ->
+  w_fes (fst (process sc0 (set_fes w f1) t ev)) = f1 /\ timers (w_mod (fst (process sc0 (set_fes w f1) t ev)) m) = [].
+Proof.
+  intros Ha Hs Hb Ht Hi.
+  destruct ev as [i far x|i x|i|i]; cbn [inert] in Hi; try discriminate; apply N.eqb_eq in Hi; subst i; unfold process.
+  - unfold walk. cbn [w_mod set_fes]. rewrite Ha. cbn [fst w_fes w_mod set_fes]. auto.
+  - apply (around_inactive_idle sc0 t m _ (set_fes w f1)); try assumption. intros s Hact. unfold handle_message. rewrite Hact. reflexivity.
+  - apply (around_inactive_idle sc0 t m _ (set_fes w f1)); try assumption. intros s Hact. unfold async_wakeup. rewrite Hact. reflexivity.
+Qed.
